@@ -71,6 +71,13 @@ func C07(c *core.Ctx) {
 	for _, mb := range arrayMembers(c.Tier, gen.DefaultConfig()) {
 		runMember(c, mb, rules, 16, checkRoot)
 	}
+	// arrays whose items are of type null keep their own length limits (the null check of the items and the limits of the array are
+	// two constraints of one level)
+	for _, mb := range nullMembers(c.Tier, gen.DefaultConfig()) {
+		if strings.Contains(mb.name, "{min") {
+			runMember(c, mb, rules, 16, checkRoot)
+		}
+	}
 	runCompositions(c, rules, "Items")
 	ruleMultiSel(c, ruleSet("A-REJ", "A-NOEXTRA"), 2, "differing only in minItems", "differing only in maxItems")
 	ruleFidelity(c, "minItems", "maxItems")
